@@ -25,7 +25,7 @@ run_demo() {  # returns 0 if demo passes
     # run exactly the test functions the demonstration file defines
     pat=$(grep -o 'func Test[A-Za-z0-9_]*' "$demo" | sed 's/func //' | paste -sd'|')
     DEMO_RUN="^(${pat})\$"
-    cp "$demo" "$pkgdir/zz_demo_test.go"
+    mkdir -p "$pkgdir"; cp "$demo" "$pkgdir/zz_demo_test.go"
     if [ "$pkgdir" = "." ]; then
       # a demo in the root package would run TestMain (fixed ports): serialise
       flock /tmp/mtb-ports.lock go test -vet=off -count=1 -timeout 20m -run "$DEMO_RUN" . >>"$LOG" 2>&1; rc=$?
